@@ -790,3 +790,239 @@ PROPS["C04"] = Spec(
     explanation="Theorems: the directive-pass generator is total and the number of passes is linear in the number of directives (no exponential blow-up); cursor relocation cannot underflow; boundary cursors cannot make process_cursors slice inside a character. Everything else about termination is runtime behaviour: each case runs in a worker under a time bound; aborts (panic location normalised to the file) and hangs are violations unless they match a listed finding class.",
     assumptions=["termination and stack depth of the real grammar recursion and wrapper search are sampled, not proved"],
 )
+
+
+# ------------------------------------------------------------------ C13
+
+DELIMS = [" ", "\t", "\n", "\r\n", ";", ".", "(", ")", "[", "+", "-", "'", "{", "/", "//", "　", "é", "日", "\x0b", "\x01", "#", "$", "&", "^", "@", ":=", "<", ">", "", "\x7f", "ÿ"]
+WORDS = ["begin", "END", "Procedure", "x", "_a1", "Résumé", "abstract", "WriteOnly", "implementation", "ifx", "beginx", "a_b_c", "ÄÖÜ"]
+
+
+def lexer_sweep_lines(ctx):
+    """identifiers / keywords / numbers of length 1..200 at alignments 0..64, followed by every delimiter class"""
+    rng = ctx.rng
+    lines = []
+    lengths = list(range(1, 201)) if not ctx.quick() else list(range(1, 70)) + [95, 96, 97, 127, 128, 129, 159, 160, 161, 191, 192, 193, 200]
+    aligns = list(range(0, 65)) if not ctx.quick() else [0, 1, 2, 3, 7, 8, 15, 16, 17, 31, 32, 33, 63, 64]
+    alphabet = "abcdefghijklmnopqrstuvwxyzABCDEFGHIJKLMNOPQRSTUVWXYZ0123456789_"
+    for n in lengths:
+        for al in (aligns if n % 7 == 0 or n < 40 else rng.sample(aligns, 3)):
+            for d in (DELIMS if (n + al) % 5 == 0 else rng.sample(DELIMS, 4)):
+                kind = rng.randrange(4)
+                if kind == 0:
+                    w = "".join(rng.choice(alphabet) for _ in range(n))
+                    if w[0].isdigit():
+                        w = "a" + w[1:]
+                elif kind == 1:
+                    base = rng.choice(WORDS)
+                    w = (base * (n // len(base) + 1))[:n]
+                elif kind == 2:
+                    w = "".join(rng.choice("0123456789_") for _ in range(n))
+                else:
+                    w = "".join(rng.choice(alphabet + "éñ日") for _ in range(n))
+                text = " " * al + w + d + "tail"
+                lines.append((al, text))
+    return lines
+
+
+def run_c13(ctx):
+    rng = ctx.rng
+    import subprocess
+    # (1) the lexer on every kind of input
+    cases = standard_streams(ctx, n_seed_cfgs=1, n_mut=ctx.n(1500, 30000), n_soup=ctx.n(2000, 40000), n_bytes=ctx.n(1500, 30000), n_gram=ctx.n(150, 3000))
+    sweep = lexer_sweep_lines(ctx)
+    for al, text in sweep[:: ctx.n(4, 1)]:
+        cases.append(ctx.case("sweep", text, gen.DEFAULT_CFG))
+    for w in WORDS + [k for k in gen.ALPHABET if k.isalpha()]:
+        for v in (w, w.upper(), w.capitalize(), w + "x", "&" + w, "." + w, w[:-1]):
+            cases.append(ctx.case("word", "x " + v + " ;", gen.DEFAULT_CFG))
+    ctx.run_stream(cases, units=["lex", "tokok"])
+    # (2) both identifier scans, through the hooks
+    f = os.path.join(build.CACHE, "run", "ident_%d.txt" % os.getpid())
+    os.makedirs(os.path.dirname(f), exist_ok=True)
+    with open(f, "w") as o:
+        for al, text in sweep:
+            o.write("%d %s\n" % (al, text.encode("utf-8").hex()))
+    p = subprocess.run([build.VH, "unit", "identend", f], stdout=subprocess.PIPE, env=build.ENV, timeout=1200)
+    g = f + ".out"
+    with open(g, "wb") as o:
+        o.write(p.stdout)
+    q = subprocess.run([build.DRIVER, "identend", g], stdout=subprocess.PIPE, timeout=1200)
+    n_ok = n_bad = 0
+    avx2_present = b" -\n" not in p.stdout[:2000]
+    for line in q.stdout.decode().splitlines():
+        if line.startswith("IDENT OK"):
+            n_ok = int(line.split()[2])
+        elif line.startswith("IDENT DIFF"):
+            n_bad += 1
+            ctx.corr_diffs.append(("identend", "identend", line))
+    for x in (f, g):
+        os.remove(x)
+    ctx.corr_counts["identend"] = [n_ok, n_bad]
+    ctx.traces_validated += n_ok
+    ctx.evaluations += n_ok + n_bad
+    ctx.oracle_counts["avx2_routine_exercised"] = bool(avx2_present)
+    ctx.hypotheses["hand-modelled byte classes and sub-lexers of lexer.rs"] = "unit lex: token boundaries and kinds of the model lexer = real lexer on every case"
+
+
+PROPS["C13"] = Spec(
+    coq_targets=["theories/Properties/C13.v"], module="Properties.C13",
+    theorems=["C13_total", "C13_lossless", "C13_fits", "C13_eof_last_unique", "C13_content_nonempty_nonblank_start", "C13_ws_blank",
+              "C13_char_boundaries", "C13_pieces_valid_utf8", "C13_avx2_eq_generic", "C13_keyword_hash_eq_search", "C13_keyword_case_insensitive"],
+    run=run_c13,
+    rule="seeds, mutated seeds, token soup, arbitrary bytes decoded as text, grammar programs; identifiers/keywords/digit runs/non-ASCII words of length 1..200 at alignments 0..64 followed by 31 delimiter classes (ASCII, controls, non-ASCII, U+3000); every keyword in several case variants and near misses; both identifier-end routines driven through hooks",
+    explanation="Theorems over a byte-level model of the whole lexer: totality, losslessness with stepwise bounds, one Eof last, non-empty contents starting at a non-blank, blank leading whitespace, character boundaries and valid UTF-8 pieces, AVX2 scan = scalar scan for every input, keyword perfect hash (over tables regenerated from the source on every run) = case-insensitive linear search. The model lexer is the reference scanner: its token boundaries and kinds are diffed against the real lexer on every case, and both real identifier scans are diffed against both models on the sweep.",
+    assumptions=["byte-level identifier/whitespace treatment coincides with the char-level Rust on valid UTF-8 (argued in Model/Lexer.v, exercised by the non-ASCII streams)"],
+)
+
+
+# ------------------------------------------------------------------ C02, C06, C03
+
+def insert_comments(text, rng):
+    """inline comments at random gaps (never own-line at a grammar decision point: finding F21)"""
+    if gen.has_asm_or_toggle(text) or "'''" in text:
+        return None
+    toks = gen.tokenize(text)
+    out = []
+    for i, (k, t) in enumerate(toks):
+        out.append(t)
+        if k == "ws" and 0 < i < len(toks) - 1 and rng.random() < 0.12 and not gen.is_comment_kind(toks[i - 1][0]) and toks[i - 1][0] != "unk":
+            c = rng.random()
+            if c < 0.5:
+                out.append(rng.choice(["{c}", "(* c *)", "{ two words }"]) + " ")
+            elif "\n" in t:
+                out.append(rng.choice(["// own line", "//x", "/// doc"]) + "\n")
+    return "".join(out)
+
+
+def wrap_in_directives(text, rng):
+    """wrap whole lines in conditional directives"""
+    lines = text.split("\n")
+    if len(lines) < 3 or gen.has_asm_or_toggle(text) or "'''" in text:
+        return None
+    i = rng.randrange(0, len(lines))
+    j = rng.randrange(i, min(len(lines), i + 4))
+    return "\n".join(lines[:i] + ["{$IFDEF FOO}"] + lines[i:j + 1] + ["{$ENDIF}"] + lines[j + 1:])
+
+
+def wellformed_variants(ctx, n_gram, per=2):
+    rng = ctx.rng
+    out = []
+    for text, kind, wrap in wellformed_texts(ctx, n_gram):
+        out.append((text, kind, wrap))
+        for _ in range(per):
+            c = rng.random()
+            t2 = None
+            if c < 0.4:
+                t2 = gen.relayout(text, rng)
+                k2 = "relayout"
+            elif c < 0.6:
+                t2 = insert_comments(text, rng)
+                k2 = "comments"
+            elif c < 0.7 and kind == "grammar":
+                t2 = wrap_in_directives(text, rng)
+                k2 = "directives"
+            elif c < 0.8:
+                t2 = gen.to_crlf(text)
+                k2 = "crlf"
+            elif c < 0.9:
+                t2 = "".join(ch.upper() if rng.random() < 0.3 else ch for ch in text) if "'" not in text and "{" not in text and "//" not in text else None
+                k2 = "case"
+            if t2:
+                out.append((t2, k2, wrap))
+    return out
+
+
+def run_c02(ctx):
+    rng = ctx.rng
+    cases = []
+    for text, kind, wrap in wellformed_variants(ctx, ctx.n(250, 5000), per=ctx.n(2, 4)):
+        cases.append(ctx.case(kind, text, gen.random_cfg(rng, wrap=rng.choice([wrap, 20, 40, 80, 120, 1000000]))))
+    ctx.run_stream(cases, units=["spacing", "relex", "lex", "comment", "lower", "recon"])
+    ctx.hypotheses["plan_ok: break after line comments / unterminated literals, inline comments never broken off"] = "re-scan oracle on every case (comment kinds are part of the compared token kinds)"
+    ctx.hypotheses["lex_one_local (each sub-lexer depends on its own bytes plus a follow set)"] = "re-scan with the verified model lexer and with the real lexer on every case"
+
+
+def run_c06(ctx):
+    rng = ctx.rng
+    pairs = []
+    for text, kind, wrap in wellformed_texts(ctx, ctx.n(250, 5000)):
+        for _ in range(ctx.n(1, 3)):
+            t2 = gen.relayout(text, rng)
+            if t2 is None or t2 == text:
+                continue
+            cfg = gen.random_cfg(rng, wrap=rng.choice([wrap, 30, 60, 120]))
+            pairs.append((ctx.case(kind, text, cfg), ctx.case(kind + "-relayout", t2, cfg), {}))
+
+    def compare(ra, rb, meta):
+        ctx.count("relayout_pairs")
+        if ra.out != rb.out:
+            ctx.fail("relayout_differs", rb.case, "formatting a re-layouted input gives a different result; original input: %r" % ra.case.text[:300],
+                     observed=rb.out.hex()[:2000], expected=ra.out.hex()[:2000])
+
+    run_pairs(ctx, pairs, compare)
+    sample = [ctx.case("trace", t, gen.random_cfg(rng)) for t, _, _ in wellformed_texts(ctx, 20)[:: ctx.n(4, 1)]]
+    ctx.run_stream(sample, units=["spacing", "fmtdata"])
+    ctx.hypotheses["H-P2 / H-W2: parser and wrapper do not consult the original layout (except the documented reads)"] = "relayout metamorphic pairs on the real formatter; inventory of leading-whitespace reads proved equal to the modelled set"
+
+
+def run_c03(ctx):
+    rng = ctx.rng
+    first = []
+    for text, kind, wrap in wellformed_variants(ctx, ctx.n(200, 4000), per=ctx.n(1, 3)):
+        first.append(ctx.case(kind, text, gen.random_cfg(rng, wrap=rng.choice([wrap, 30, 60, 120, 1000000]))))
+    res1 = ctx.run_stream(first, mode="fmt")
+    second = []
+    for c in first:
+        r = res1.get(c.id)
+        if r is None or r.out is None:
+            continue
+        try:
+            t = r.out.decode("utf-8")
+        except UnicodeDecodeError:
+            continue
+        second.append(ctx.case(c.meta["stream"] + "-2", t, c.cfg, meta={"orig": c.text}))
+
+    def oracle(r):
+        ctx.count("second_pass_checked")
+        if r.out != r.case.input_bytes():
+            ctx.fail("not_idempotent", r.case, "formatting the formatter's own output changes it; original input: %r" % str(r.case.meta.get("orig"))[:300],
+                     observed=r.out.hex()[:2000])
+
+    res2 = ctx.run_stream(second, mode="fmt", oracle=oracle)
+    if not ctx.quick():
+        third = []
+        for c in second[::3]:
+            r = res2.get(c.id)
+            if r and r.out is not None:
+                third.append(ctx.case("third", r.out.decode("utf-8", "replace"), c.cfg, meta={"orig": c.meta.get("orig")}))
+        ctx.run_stream(third, mode="fmt", oracle=oracle)
+    sample = [ctx.case("trace", c.text, c.cfg) for c in second[:: max(1, len(second) // 300)]]
+    ctx.run_stream(sample, units=["spacing", "lower", "comment", "eofnl", "mlstring", "fmtdata"])
+    ctx.hypotheses["H-W2/H-W4/H-W5: the wrapper's plan is a function of the layout-free view; reflow = fresh call"] = "fmt(fmt(x)) = fmt(x) on the real formatter"
+
+
+PROPS["C02"] = Spec(
+    coq_targets=["theories/Properties/C02.v"], module="Properties.C02",
+    theorems=["C02_spacing_only_counters", "C02_gap_local", "C02_spacing_separates"],
+    run=run_c02,
+    rule="well-formed seeds and grammar programs and their variants (relayout, inline/own-line comment insertion, conditional-directive wrapping, CRLF, keyword case) x random configurations incl. narrow widths",
+    explanation="Theorem (reflection over all 183 generated token types): whenever TokenSpacing leaves no space between two tokens the pair is glue-safe for the lexer, or the input had no blank there, or it is one of 23 listed pairs impossible in well-formed code. The spacing model is diffed against the real rule on every case. The oracle re-scans the real output with the verified model lexer and with the real lexer and compares kinds and text of every token with the final token vector (so only the documented normalisations can differ).",
+    assumptions=["H-W1 (comment break invariants of the wrapper) and locality of the sub-lexers are decided by the re-scan oracle, not proved"],
+)
+PROPS["C06"] = Spec(
+    coq_targets=["theories/Properties/C06.v"], module="Properties.C06",
+    theorems=["C06_reads_orig_characterised", "C06_keeps_orig_characterised", "C06_gap_equiv", "C06_spacing_layout_free", "C06_literal_gap_is_read"],
+    run=run_c06,
+    rule="well-formed seeds and grammar programs x token-aware random re-layouts (space/tab/newline/indentation at gaps between non-comment, non-literal tokens; blank-line groups kept) x random configurations",
+    explanation="Theorems: the spacing rule reads the original space count exactly on a characterised class of type pairs (the literal-gap leak, finding F4) and only up to min 1; outside it the result is independent of the original counts. That parser and wrapper do not consult the layout is decided by the metamorphic oracle on the real formatter; the set of leading-whitespace reads is proved equal to the modelled set (inventory).",
+    assumptions=["H-P2, H-W2 validated by differential execution"],
+)
+PROPS["C03"] = Spec(
+    coq_targets=["theories/Properties/C03.v"], module="Properties.C03",
+    theorems=["C03_spacing_idempotent", "C03_lowercase_idempotent", "C03_eof_newline_idempotent", "C03_mlstring_idempotent"],
+    run=run_c03,
+    rule="well-formed seeds and grammar programs and their variants x random configurations: format, then format the result again with the same configuration (and a third time in the thorough tier)",
+    explanation="Theorems: the spacing rule, keyword lower-casing, EofNewline and multi-line string re-indentation are fixpoints of themselves. Idempotence of the whole formatter additionally needs the wrapper's plan to be a function of the layout-free view, which is decided by the oracle fmt(fmt(x)) = fmt(x) on the real formatter.",
+    assumptions=["H-W2, H-W4 (false in the F6 class), H-W5"],
+)
